@@ -20,6 +20,10 @@ pub struct Case {
     /// bit-flip stride: 1 = every bit
     pub stride: usize,
     pub tag: u64,
+    /// > 0: length sweep - for EVERY length 1..=len_sweep of info (mode Base), psk_id and psk (mode Psk) a baseline
+    /// session with a string of that length, and a receiver whose string differs in the LAST byte only
+    #[serde(default)]
+    pub len_sweep: usize,
 }
 
 pub struct C07;
@@ -28,6 +32,8 @@ pub struct C07;
 pub struct Produced {
     pub cts: Vec<(Vec<u8>, Vec<u8>)>,
     pub exports: Vec<(Vec<u8>, usize, Vec<u8>)>,
+    /// (ciphertext, aad) sealed at the LAST sequence number 2^64-1 (guard-on builds only)
+    pub last: Option<(Vec<u8>, Vec<u8>)>,
 }
 
 pub fn export_probes(seed: u64) -> Vec<(Vec<u8>, usize)> {
@@ -52,7 +58,12 @@ pub fn produce(suite: SuiteId, m: &ModeSpec, pk_r: &[u8], info: &[u8], ikm_e: &[
     for (c, l) in export_probes(seed) {
         exports.push((c.clone(), l, s.export(&c, l).need("export")?));
     }
-    Ok((enc, Produced { cts, exports }))
+    let mut last = None;
+    if crate::suites::HOOKS && suite.aead.can_seal() {
+        s.set_seq(u64::MAX);
+        last = Some((s.seal(b"the last message of the session", b"last").need("seal at the last sequence number")?, b"last".to_vec()));
+    }
+    Ok((enc, Produced { cts, exports, last }))
 }
 
 /// The oracle: the receiver described by (suite_r, m_r, sk_r, enc, info) must share nothing with
@@ -79,6 +90,15 @@ pub fn must_not_share(out: &mut CaseOut, what: &str, suite_r: SuiteId, m_r: &Mod
                     // keep going: also report the exports
                 }
             }
+        }
+    }
+    if let (true, Some((ct, aad))) = (suite_r.aead.can_seal() && crate::suites::HOOKS, &p.last) {
+        // ... and at the other end of the sequence space
+        r.set_seq(u64::MAX);
+        out.transitions += 1;
+        match r.open(ct, aad) {
+            Obs::Err(HpkeError::OpenError) => {}
+            o => out.fail(format!("{}: sender's ciphertext at sequence number 2^64-1 -> {} (want Err(OpenError))", what, o.class())),
         }
     }
     for (c, l, v) in &p.exports {
@@ -132,7 +152,7 @@ impl Part for C07 {
         "E1-context-binding".into()
     }
     fn rule(&self) -> String {
-        "baseline (suite x mode x info shape x psk shape) x EVERY single-component perturbation of the receiver's setup: each bit of info / psk / psk_id, append 00, drop first/last byte, empty<->non-empty, boundary shifts moving a byte between adjacent fields (info|psk_id, psk|psk_id), every other mode with the same PSK data and keys (incl. Base<->Psk(empty bundle)), every other KDF, every other AEAD (AES-256-GCM vs ChaCha20Poly1305 share Nk and Nn), another recipient key pair, another valid enc, and for X25519 every bit of enc; oracle: receiver setup fails, or every sender ciphertext is rejected with OpenError AND every exported value differs; non-vacuity: the unperturbed receiver works; a case = one baseline with all its perturbations".into()
+        "baseline (suite x mode x info shape x psk shape) x EVERY single-component perturbation of the receiver's setup: each bit of info / psk / psk_id, append 00, drop first/last byte, empty<->non-empty, boundary shifts moving a byte between adjacent fields (info|psk_id, psk|psk_id), every other mode with the same PSK data and keys (incl. Base<->Psk(empty bundle)), every other KDF, every other AEAD (AES-256-GCM vs ChaCha20Poly1305 share Nk and Nn), another recipient key pair, another valid enc, and for X25519 every bit of enc; oracle: receiver setup fails, or every sender ciphertext is rejected with OpenError AND every exported value differs; for every length 1..160 of info, psk_id and psk a receiver whose string differs in the last byte only; non-vacuity: the unperturbed receiver works; a case = one baseline with all its perturbations".into()
     }
     fn bound(&self, cfg: &Cfg) -> String {
         if cfg.tier.thorough() {
@@ -163,15 +183,52 @@ impl Part for C07 {
                     tag += 1;
                     // P-384 / P-521 receivers cost milliseconds per perturbation
                     let stride = if heavy && !t { 8 } else { 1 };
-                    v.push(Case { suite, mode, info_len, psk_len, psk_id_len, stride, tag });
+                    v.push(Case { suite, mode, info_len, psk_len, psk_id_len, stride, tag, len_sweep: 0 });
                 }
+            }
+        }
+        for kdf in crate::refmodel::KDFS {
+            for chunk in 0..4usize {
+                tag += 1;
+                // (chunk, len) are folded into info_len / len_sweep: lengths chunk*40+1 ..= chunk*40+40
+                v.push(Case { suite: SuiteId { kem: Kem::X25519, kdf, aead: Aead::ChaCha20Poly1305 }, mode: Mode::Psk, info_len: chunk * 40 + 1, psk_len: 32, psk_id_len: 9, stride: 1, tag, len_sweep: chunk * 40 + 40 });
             }
         }
         v
     }
     fn run(&self, cfg: &Cfg, c: &Case) -> CaseOut {
         let mut out = CaseOut::new();
-        out.outcome = format!("{:?}/{}", c.mode, c.suite.kem.name());
+        out.outcome = format!("{:?}/{}{}", c.mode, c.suite.kem.name(), if c.len_sweep > 0 { "/length-sweep" } else { "" });
+        if c.len_sweep > 0 {
+            let k = keys(c.suite.kem, c.tag, cfg.seed);
+            for l in c.info_len..=c.len_sweep {
+                for which in 0..3 {
+                    let long = bytes(Fill::Mix, l, 70 + which, cfg.seed);
+                    let mut other = long.clone();
+                    other[l - 1] ^= 0x01;
+                    let short = bytes(Fill::Mix, 9, 75, cfg.seed);
+                    let (info_s, psk_s, id_s, info_r, psk_r, id_r) = match which {
+                        0 => (long.clone(), vec![9u8; 32], short.clone(), other.clone(), vec![9u8; 32], short.clone()),
+                        1 => (short.clone(), vec![9u8; 32], long.clone(), short.clone(), vec![9u8; 32], other.clone()),
+                        _ => (short.clone(), long.clone(), short.clone(), short.clone(), other.clone(), short.clone()),
+                    };
+                    let m_s = mode_spec(Mode::Psk, &k, &psk_s, &id_s);
+                    let m_r = mode_spec(Mode::Psk, &k, &psk_r, &id_r);
+                    let (enc, p) = match produce(c.suite, &m_s, &k.pk_r, &info_s, &k.ikm_e, cfg.seed) {
+                        Ok(x) => x,
+                        Err(e) => {
+                            out.fail(e);
+                            return out;
+                        }
+                    };
+                    if l % 16 == 1 && !must_share(&mut out, "length-sweep baseline", c.suite, &m_s, &k.sk_r, &enc, &info_s, &p) {
+                        return out;
+                    }
+                    must_not_share(&mut out, &format!("{} Psk [{} of {} bytes, receiver's differs in the last byte only]", c.suite.name(), ["info", "psk_id", "psk"][which as usize], l), c.suite, &m_r, &k.sk_r, &enc, &info_r, &p);
+                }
+            }
+            return out;
+        }
         let k = keys(c.suite.kem, c.tag, cfg.seed);
         let k2 = keys(c.suite.kem, c.tag + 100_000, cfg.seed);
         let info = bytes(Fill::Mix, c.info_len, 10, cfg.seed);
